@@ -26,6 +26,8 @@ ID = 'C15'
 MODULE = 'PyTough.Props.C15'
 TARGETS = ['PyTough.Props.C15', 'drv_c15']
 THEOREMS = ['Props.C15.' + t for t in [
+    'bounds_cowat', 'bounds_cowat_off', 'bounds_supst', 'bounds_sat', 'bounds_tsat', 'guards_calls_defined',
+    'steam_fraction_in_unit', 'steam_fraction_monotone', 'regions_agree_logic',
 ]]
 LEVEL_TEXT = ''
 LEVEL_NOTE = ''
@@ -356,7 +358,15 @@ def real_call(T, fn, args):
     return call(getattr(T, fn), *args)
 
 
-# ------------------------------------------------------------------ run
+# ------------------------------------------------------------------ translate + run
+
+def translate(ctx):
+    """regenerate the Lean definitions from the current source; raises TranslateError on anything outside the subset"""
+    changed = thermo.generate(core.REPO, core.LEAN, which=('iapws', 'ifc67'))
+    if changed:
+        ctx.notes.append('regenerated ' + ', '.join(changed))
+
+
 
 def run(ctx, scale=1.0, oracle_only=False):
     I = load_real('IAPWS97')
